@@ -1115,7 +1115,9 @@ fn scenario_traffic(sc: &str) -> Result<Violations, String> {
     use nundb::replication_ops::start_replication_thread;
     let p: Vec<&str> = sc.split('|').collect();
     // "cluster|<strategy>|<P|S: the node the client talks to>|<command>": two nodes wired in process (see scenario_traffic_cluster)
-    if p.len() == 4 && p[0] == "cluster" { return scenario_traffic_cluster(p[1], p[2], p[3]); }
+    if p.len() == 4 && p[0] == "cluster" { return scenario_traffic_cluster(p[1], &[(p[2], p[3])]); }
+    if p.len() == 6 && p[0] == "cluster" { return scenario_traffic_cluster(p[1], &[(p[2], p[3]), (p[4], p[5])]); }
+    if p.len() == 8 && p[0] == "cluster" { return scenario_traffic_cluster(p[1], &[(p[2], p[3]), (p[4], p[5]), (p[6], p[7])]); }
     if p.len() != 5 { return Err("bad scenario".into()); }
     let idx: usize = p[4].parse().map_err(|_| "bad index")?;
     let dir = std::env::var("NUN_DBS_DIR").map_err(|_| "NUN_DBS_DIR not set")?;
@@ -1202,7 +1204,7 @@ fn scenario_traffic(sc: &str) -> Result<Violations, String> {
 
 /// C14, two nodes wired in process: a primary P (its REAL replication thread does the fan-out) and a secondary S; every line a node hands to the other's link is delivered through
 /// process_request on an authenticated peer session whose own channel leads back.  One client command is issued, then whole rounds of deliveries are run: the exchange must die out.
-fn scenario_traffic_cluster(strategy: &str, origin: &str, cmd: &str) -> Result<Violations, String> {
+fn scenario_traffic_cluster(strategy: &str, steps: &[(&str, &str)]) -> Result<Violations, String> {
     use nundb::disk_ops::{snapshot_keys, Oplog};
     use nundb::replication_ops::start_replication_thread;
     let dir = std::env::var("NUN_DBS_DIR").map_err(|_| "NUN_DBS_DIR not set")?;
@@ -1240,8 +1242,10 @@ fn scenario_traffic_cluster(strategy: &str, origin: &str, cmd: &str) -> Result<V
     drain(&mut s_queue); drain(&mut link_sp);
     let mut v: Violations = vec![];
     let ok = catch_unwind(AssertUnwindSafe(|| {
+        let mut worst: Vec<usize> = vec![];
+        for (origin, cmd) in steps {
         let (mut c, mut crx) = Client::new_empty_and_receiver();
-        let w = if origin == "P" { &pw } else { &sw };
+        let w = if *origin == "P" { &pw } else { &sw };
         run_cmd(w, &mut c, &mut crx, "auth u p"); run_cmd(w, &mut c, &mut crx, "use-db d tok");
         run_cmd(w, &mut c, &mut crx, cmd);
         let mut per_round: Vec<usize> = vec![];
@@ -1265,12 +1269,27 @@ fn scenario_traffic_cluster(strategy: &str, origin: &str, cmd: &str) -> Result<V
             per_round.push(copies.len() + forwards.len() + acks.len());
             if copies.is_empty() && forwards.is_empty() && acks.is_empty() { break; }
         }
-        per_round
+        if per_round.len() > worst.len() || per_round.last() != Some(&0) { worst = per_round; }
+        if worst.last() != Some(&0) { break; }
+        }
+        worst
     }));
     let per_round = match ok { Ok(x) => x, Err(_) => { v.push("C10.safety".into()); return Ok(v); } };
     if std::env::var("VERIF_TRACE").is_ok() { eprintln!("messages per round: {:?}", per_round); }
     // one client operation: a bounded burst (a forward, a copy, an acknowledgement - a few rounds at most), then silence
     chk(&mut v, "C14.bounded-burst-then-silence", per_round.last() == Some(&0) && per_round.len() <= 4);
+    // ... and once it is silent both nodes read the same value for the keys the command could touch (a remove accepted by a secondary is never handed to the primary: observed in
+    // family forward, judged by no claimed property - left out here)
+    if per_round.last() == Some(&0) && !steps.iter().any(|(origin, cmd)| *origin == "S" && cmd.starts_with("remove")) {
+        let read = |w: &World, k: &str| -> Option<String> { let m = w.dbs.map.read().unwrap(); m.get("d").and_then(|db| db.get_value(k.to_string())).and_then(|e| if e.state == ValueStatus::Deleted { None } else { Some(e.value) }) };
+        for k in ["k", "cnt"] {
+            let same = read(&pw, k) == read(&sw, k);
+            if std::env::var("VERIF_TRACE").is_ok() && !same { eprintln!("key {}: primary {:?} secondary {:?}", k, read(&pw, k), read(&sw, k)); }
+            if strategy == "newer" { chk(&mut v, "C19.replicas-agree", same); }
+            if strategy == "none" { chk(&mut v, "C02.replicas-agree", same); }
+            if strategy == "arbiter" && steps.iter().all(|(_, cmd)| cmd.starts_with("resolve")) { chk(&mut v, "C13.resolution-reaches-every-node", same); }
+        }
+    }
     Oplog::clean_op_log_metadata_files();
     Ok(v)
 }
@@ -1285,6 +1304,12 @@ fn all_traffic_scenarios() -> Vec<String> {
     for st in ["none", "newer", "arbiter"] { for origin in ["P", "S"] { for cmd in ["set k v", "set-safe k 1 v", "increment cnt 1", "remove k", "resolve 5 d k 3 v", "create-user eve et"] {
         out.push(format!("cluster|{}|{}|{}", st, origin, cmd));
     } } }
+    // two client commands, each on either node, the exchange of the first run to its end before the second is issued
+    let two = ["set k v", "set-safe k 1 w", "set-safe k 9 x", "increment cnt 1", "remove k", "resolve 5 d k 3 y"];
+    for st in ["none", "newer", "arbiter"] { for o1 in ["P", "S"] { for c1 in two { for o2 in ["P", "S"] { for c2 in two {
+        out.push(format!("cluster|{}|{}|{}|{}|{}", st, o1, c1, o2, c2));
+        for o3 in ["P", "S"] { for c3 in two { out.push(format!("cluster|{}|{}|{}|{}|{}|{}|{}", st, o1, c1, o2, c2, o3, c3)); } }
+    } } } } }
     out
 }
 
@@ -2340,7 +2365,7 @@ fn family_props(fam: &str) -> &'static [&'static str] {
         "store" => &["C01", "C02", "C03", "C08"], "strategy" => &["C02", "C13", "C19"], "pending" => &["C15"], "ids" => &["C16"], "keymap" => &["C16"],
         "oplog" => &["C05", "C12"], "session" => &["C01", "C08", "C09"], "permchange" => &["C09"], "arbiter" => &["C06", "C13"], "watch" => &["C03"], "lines" => &[], "flood" => &[],
         "connections" => &["C17"], "snapshot" => &["C01", "C02", "C06", "C19"], "resync" => &["C05"], "election" => &["C07"], "http" => &["C20"], "httpserver" => &["C08", "C09", "C17", "C20"], "tcpserver" => &["C03", "C17"], "race" => &["C01", "C02"], "oplogdisk" => &["C16"], "wsserver" => &["C03", "C17", "C20"],
-        "values" => &["C01", "C03"], "forward" => &["C08", "C09"], "resub" => &["C03"], "logthread" => &["C05", "C12", "C15"], "logroll" => &["C12"], "linktag" => &["C07"], "replica" => &["C02", "C05", "C19"], "traffic" => &["C14", "C05"],
+        "values" => &["C01", "C03"], "forward" => &["C08", "C09"], "resub" => &["C03"], "logthread" => &["C05", "C12", "C15"], "logroll" => &["C12"], "linktag" => &["C07"], "replica" => &["C02", "C05", "C19"], "traffic" => &["C14", "C05", "C02", "C13", "C19"],
         _ => &[],
     }
 }
